@@ -120,3 +120,11 @@ CLAIMED["C10"] = (
     "verified for payload lengths 0/1/4/32 and assumed for the others at call sites, A-enc, A-smt, A-struct. Known design-time findings #28/#29 "
     "(partial data with SUCCESS status; struct.error from response constructors) are not covered by a check.",
     "DESIGN.md 7 C10")
+CLAIMED["C13"] = (
+    "Deductively: the OTFAD counter nonce KeyBlob._get_ctr_nonce = CTR_W0 || CTR_W1 || (W0 xor W1) || 0^4 (address word left to the counter), and "
+    "the BEE protected window BeeProtectRegionBlock.update = [lowest FAC start, highest FAC end) for 0..3 regions in any order, plus "
+    "is_inside_region. The statement's main clause (the hardware decrypts what SPSDK encrypts, locality, key-blob unwrap) is only a bounded "
+    "check here: per-16-byte-block hardware models for OTFAD and BEE over seeded blobs / regions / bases (known finding C13-KF1 for bases that "
+    "are not 1 KiB aligned). IEE is not covered.",
+    "Trusted: AES as external (A-crypto-fun); encrypt_image loops (OTFAD/IEE/BEE), key-blob export/unwrap and KEK scrambling are NOT under contract; A-enc, A-smt.",
+    "DESIGN.md 7 C13")
